@@ -253,10 +253,14 @@ Print Assumptions C08_text_bytes_readable.
    the reader's two look-ups are transcribed (Model/JsonMeta.v, node_write / node_read).  For every name other than the two
    member names the node already uses, and whatever the node held before, the name and the blob come back: *)
 Theorem C08_blob_roundtrip : forall n name b,
-  nget k_Type n = Some MType -> name <> k_Data -> name <> k_Type ->
+  nget k_Type n = Some MType -> name_ok name = true -> name <> k_Data -> name <> k_Type ->
   node_read (node_write n name b) = Ok (Some (name, b)).
-Proof. exact node_roundtrip. Qed.
+Proof. intros n name b Ht _ Hd Hy. exact (node_roundtrip n name b Ht Hd Hy). Qed.
 Print Assumptions C08_blob_roundtrip.
+(* name_ok: non-empty, no NUL, not ".", no '/'.  add_file refuses "" (TypeError), NUL (ValueError), "." (KeyError): name_refusal,
+   compared with the code on generated names.  A name with '/' is an HDF5 path: "a/b" creates a nested group and is read back,
+   "/x" puts the blob at the root of the file, which then no longer opens (open finding file-named-absolute-path); such names
+   are outside the node model and are checked by the oracle only. *)
 
 (* REFUTED in general (open findings file-named-Data, file-named-Type): consequences of the same model *)
 Theorem C08_blob_named_Data_refuted : ~ node_full.
@@ -283,14 +287,18 @@ Theorem C08_uuid_text_roundtrip : forall u, (u < 2 ^ 128)%N -> parse_uuid (uuid_
 Proof. exact parse_uuid_braced. Qed.
 Print Assumptions C08_uuid_text_roundtrip.
 
-(* every metadata dictionary (any nesting of dicts, lists, None, bool, int, float, str with str keys) comes back equal when
-   (meta_ok) identifiers sit directly in the dictionary or in a dictionary directly below, and no string / integer in those
-   slots is a uuid look-alike; the JSON text layer itself (json.dumps / json.loads) is trusted *)
+(* every metadata dictionary (any nesting of dicts, lists, None, bool, int, float, str with str keys), assigned to a fresh
+   entity, comes back equal when (meta_ok) identifiers sit directly in the dictionary or in a dictionary directly below, and no
+   string / integer in those slots is taken for an identifier by the model's parser parse_uuid.  parse_uuid follows
+   uuid.UUID(str(v)) including what int(text, 16) tolerates on ASCII text (blanks around, '+', "0x"/"0X", single underscores
+   between digits); non-ASCII strings are admitted by meta_ok only when their cleaned text has not 32 characters (CPython also
+   accepts non-ASCII digits and blanks, which the model does not decide).  The JSON text layer (json.dumps / json.loads) is trusted. *)
 Theorem C08_meta_roundtrip : forall m, meta_ok m = true -> meta_trip m = Ok m.
 Proof. exact meta_roundtrip. Qed.
 Print Assumptions C08_meta_roundtrip.
 
-(* exactly which strings and integers do not survive in a mapped slot: those uuid.UUID(str(v)) accepts *)
+(* which strings and integers do not survive in a mapped slot: exactly those the model's parser parse_uuid accepts (= those
+   uuid.UUID(str(v)) accepts, for ASCII text; the correspondence generator feeds the lenient forms) *)
 Theorem C08_meta_lookalikes : forall k k2 s z,
   (meta_trip (JDict [(k, JStr s)]) = Ok (JDict [(k, JStr s)]) <-> parse_uuid s = None)
   /\ (meta_trip (JDict [(k, JInt z)]) = Ok (JDict [(k, JInt z)]) <-> parse_uuid (dec_Z z) = None)
@@ -313,12 +321,39 @@ Proof. intros. split; reflexivity. Qed.
 Print Assumptions C08_meta_unmapped_positions.
 
 Theorem C08_meta_refusals :
-  (forall m, (forall d, m <> JDict d) -> meta_trip m = Err TypeErr)
+  (forall m, (forall d, m <> JDict d) -> m <> JNull -> meta_trip m = Err TypeErr)
+  /\ meta_trip JNull = Ok JNull                                  (* None is accepted: it clears the metadata *)
   /\ (forall d, plain (dmap (JDict d)) = false -> meta_trip (JDict d) = Err TypeErr)
   /\ (forall k u, meta_trip (JDict [(k, JList [JList [JUuid u]])]) = Err TypeErr)
   /\ (forall k, meta_trip (JDict [(k, JBad)]) = Err TypeErr).
 Proof. exact meta_refusals. Qed.
 Print Assumptions C08_meta_refusals.
+
+(* several assignments in one session: the setter merges (dict.update), None clears, and meta_trip is the one-assignment case *)
+Theorem C08_meta_merge_roundtrip : forall d1 d2,
+  plain (dmap (JDict d1)) = true -> plain (dmap (JDict d2)) = true ->
+  let m := dupdate d1 d2 in
+  meta_ok (JDict m) = true ->
+  exists st, meta_run Repaired mfresh [JDict d1; JDict d2] = (st, [None; None])
+             /\ mem st = Some m /\ file st = Some (dmap (JDict m)) /\ meta_reopen st = Ok (JDict m).
+Proof. exact meta_merge_roundtrip. Qed.
+Print Assumptions C08_meta_merge_roundtrip.
+
+Theorem C08_meta_none_clears : forall w st, meta_assign w st JNull = (mfresh, None) /\ meta_reopen mfresh = Ok JNull.
+Proof. exact meta_none_clears. Qed.
+Print Assumptions C08_meta_none_clears.
+
+(* "rejected rather than silently altered": a refused assignment changes neither the entity nor the file (repaired code) *)
+Theorem C08_meta_refusal_atomic : forall st v,
+  (forall d, v = JDict d -> plain (dmap v) = false) -> v <> JNull -> meta_assign Repaired st v = (st, Some TypeErr).
+Proof. exact meta_refusal_atomic. Qed.
+Print Assumptions C08_meta_refusal_atomic.
+
+(* REFUTED for the code as shipped (fixes/C08-metadata-refusal-not-atomic.patch): the dataset is deleted before json.dumps
+   raises and the entity already holds the merged bad value *)
+Theorem C08_meta_refusal_old_refuted : ~ meta_refusal_atomic_prop Old.
+Proof. exact meta_refusal_atomic_old_refuted. Qed.
+Print Assumptions C08_meta_refusal_old_refuted.
 
 Example C08_meta_nonvacuous :
   let m := JDict [([97]%N, JUuid 5); ([98]%N, JDict [([99]%N, JUuid (2 ^ 128 - 1)); ([100]%N, JList []); ([101]%N, JDict [])]);
@@ -406,8 +441,10 @@ Example C08_refmap_nonvacuous :
     /\ lookup 3 m = Some s_big /\ lookup 0 m = Some s_Unknown.
 Proof. do 2 eexists. split; [vm_compute; reflexivity|]. split; reflexivity. Qed.
 
-(* referenced values and the map are independent: a value without a key is stored and returned as it is (not 0, not the
-   no-data code), no label is made up and no key is added *)
+(* DEFINITIONAL COMPOSITION (audit 2, A11): run_ref is the pair of the two independent stores, so this theorem is the
+   conjunction of C08_refmap_survives_file and C08_int_roundtrip_in_range plus two list facts; what it records is that the model
+   (tied to the code by the map cases, which store values inside and outside the keys) has no interaction between the two:
+   a value without a key is stored and returned as it is (not 0, not the no-data code), no label is made up, no key added *)
 Theorem C08_ref_values_outside_map : forall d ops m0 bs a n l,
   dict_keys_nodup d -> mk Repaired d = Ok m0 ->
   let m := fst (apply_ops Repaired m0 ops) in
